@@ -18,7 +18,7 @@ PATS = ["*.go", "**/*.go", "sub/*", "*/*", "**", "**/*", "sub/**", "*", "s*/*.go
         "{sub,zz}/*.go", "{sub,.hid}/*.go", "{sub,zz}/**/*.go", "sub/{deep,zz}/*", "{.m,a}.go*",
         # `?` and character classes, also in a directory segment before the first `*`, and matching a leading dot
         # the same patterns written with `./`
-        "./*.go", "./sub/*.go", "./**/*.go", "sub/./*.go", "./sub/**/*.go", "./{sub,zz}/*.go",
+        "./*.go", "./sub/*.go", "./**/*.go", "sub/./*.go", "./sub/**/*.go", "./{sub,zz}/*.go", "sub//*.go", "sub//deep/*.go", "**//*.go",
         "?.go*", "s?b/*.go", "[sz]*/*.go", "su[a-c]/*", "sub/[a-e].go*", "?m.go*", "**/?.go"]
 
 
@@ -29,7 +29,7 @@ def chars(s):
 def pat_struct(p):
     segs = []
     for seg in p.split("/"):
-        if seg == ".":          # `./x` and `x/./y` are other spellings of `x` and `x/y`: a `.` segment is the directory itself
+        if seg in (".", ""):     # `./x`, `x/./y` and `x//y` are other spellings of `x` and `x/y`
             continue
         if seg == "**":
             segs.append([{"k": "dstar"}])
